@@ -116,31 +116,42 @@ def supported(problem, resol, prog):
     return bool(atoms & SUFFICIENT[problem])
 
 
-def _factors(problem):
-    return {"ground": GROUNDS[problem], "orphan": [False, True], "resol": RESOLS[problem], "mode": MODES[problem]}
+MESHES = {"elastic": {"base": "QUAD4", "alt": "TRI3"}, "thermal": {"base": "TRI6", "alt": "QUAD8"},
+          "damage": {"base": "QUAD4", "alt": "TRI3"}, "beam": {"base": "SEG2"}}
+
+
+def _factors(problem, tier):
+    f = {"ground": GROUNDS[problem], "orphan": [False, True], "resol": RESOLS[problem], "mode": MODES[problem]}
+    if tier == "thorough":
+        f["mesh"] = list(MESHES[problem])
+    return f
 
 
 def cases(tier, seed):
     out = []
     progs = programs(3)
     for problem in PROBLEMS:
-        fac = _factors(problem)
+        fac = _factors(problem, tier)
         full = deviations(fac, None)
-        dev1 = deviations(fac, 1)
+        dev2 = deviations(fac, 2)
+        small = deviations({k: fac[k] for k in ("orphan", "resol", "mode")}, 1)
+        small = [dict(c, ground=fac["ground"][0]) for c in small]
         for prog in progs:
             n = prog.count(">") + 1
             if tier == "thorough":
                 cfgs = full
             else:
-                # quick: programs of <= 2 atoms with the full product of the other factors; 3-atom programs with the
-                # default configuration and every single-factor deviation
-                cfgs = full if n <= 2 else dev1
+                # quick: programs of <= 2 atoms with every configuration differing from the default one in <= 2 of the factors
+                # (ground, orphan, resolution, mode); 3-atom programs with the default configuration and every single
+                # deviation in orphan / resolution / mode
+                cfgs = dev2 if n <= 2 else small
             for c in cfgs:
                 if c["ground"] == "none" and not supported(problem, c["resol"], prog):
                     continue  # not enough support: the stated system is singular, the property promises nothing
-                # Lagrange resolutions always end in the direct solver (documented fallback): quick runs them with scipy and cg only
-                kry = "all" if (tier == "thorough" or c["resol"] == "elim") else "cg"
-                out.append({"problem": problem, "prog": prog, **c, "krylov": kry})
+                # Lagrange resolutions always end in the direct solver (documented fallback), the beam assembly is the
+                # expensive one: quick runs those with scipy and cg only
+                kry = "all" if (tier == "thorough" or (c["resol"] == "elim" and not (problem == "beam" and c["mode"] == "newton"))) else "cg"
+                out.append({"problem": problem, "prog": prog, "mesh": "base", **c, "krylov": kry})
     return out
 
 
@@ -185,9 +196,9 @@ class Spec:
     """plain description of a problem instance: coords, dof layout, node sets, atom definitions."""
 
 
-def _grid_spec(problem, orphan):
-    et = {"elastic": "QUAD4", "thermal": "TRI6", "damage": "QUAD4"}[problem]
-    zm = Z.template_2d(et, k=(3, 2))
+def _grid_spec(problem, orphan, mesh="base"):
+    et = MESHES[problem][mesh]
+    zm = Z.template_2d(et, k=(3, 2), diag=1 if mesh == "alt" else 0)
     if orphan:
         zm = zm.with_orphan()
     s = Spec()
@@ -296,7 +307,7 @@ def _beam_spec(resol, orphan):
 def make_spec(case):
     if case["problem"] == "beam":
         return _beam_spec(case["resol"], case["orphan"])
-    return _grid_spec(case["problem"], case["orphan"])
+    return _grid_spec(case["problem"], case["orphan"], case.get("mesh", "base"))
 
 
 # ------------------------------------------------------------------------------------------------
@@ -571,7 +582,7 @@ def twin_observations(case, spec, order):
     from mc.util import seed
 
     problem, prog, orphan = case["problem"], case["prog"], case["orphan"]
-    ck = (seed(), problem, prog, case["ground"], orphan, problem == "beam" and case["resol"] == "elim")
+    ck = (seed(), problem, case.get("mesh", "base"), prog, case["ground"], orphan, problem == "beam" and case["resol"] == "elim")
     if ck in _TWIN_CACHE:
         return _TWIN_CACHE[ck]
     twin, pt = build_simu(spec, "History" if problem == "damage" else "linear")
@@ -585,7 +596,7 @@ def twin_observations(case, spec, order):
     np.add.at(F, np.asarray(twin.Bc_dofs_Neumann(pt), dtype=int), np.asarray(twin.Bc_values_Neumann(pt), dtype=float))
     orphan_dofs = [nd * spec.dof_n + c for nd in spec.orphan_nodes for c in range(spec.dof_n)]
     dup = len({d for d, _ in entries}) < len(entries)
-    key = dict(problem=problem, orphan=bool(orphan), dup=bool(dup))
+    key = dict(problem=problem, mesh=case.get("mesh", "base"), orphan=bool(orphan), dup=bool(dup))
     v = []
     # dof lookup / bookkeeping of the entered conditions
     got_dofs = np.asarray(twin.Bc_dofs_Dirichlet(pt), dtype=int)
@@ -623,7 +634,7 @@ def run_case(case):
     ntr += tw["nops"]
     orphan_dofs = tw["orphan_dofs"]
     dup = tw["dup"]
-    basekey = dict(problem=problem, resol=resol, mode=mode, orphan=bool(orphan), dup=bool(dup))
+    basekey = dict(problem=problem, mesh=case.get("mesh", "base"), resol=resol, mode=mode, orphan=bool(orphan), dup=bool(dup))
     v = [dict(x) for x in tw["violations"]]
 
     # ---- solvability of the stated system --------------------------------------------------------
@@ -754,7 +765,7 @@ def run_case(case):
                 ok = False
         outcomes.append("ok" if ok else "bad")
     nontrivial = bool(free.size and np.max(np.abs(uref[free])) > 0)
-    return {"violations": _dedupe(v), "fingerprint": fp(problem, prog, ground, orphan, resol, mode, uref, outcomes),
+    return {"violations": _dedupe(v), "fingerprint": fp(problem, case.get("mesh", "base"), prog, ground, orphan, resol, mode, uref, outcomes),
             "nontrivial": nontrivial, "transitions": ntr,
             "outcome": "ok" if not v else "violation"}
 
